@@ -183,6 +183,19 @@ Proof.
 Qed.
 Print Assumptions C02_fallback_when.
 
+(* how a transaction becomes mixed: the first prewrite that reaches a (so far unlocked) locked mutation is answered
+   min-commit 0 (the store declined async commit / 1PC, or the request did not ask for it); from then on, for ever *)
+Theorem C02_fallback_first_decline : forall pre s1 r T ks k s, run pre = Some s1 ->
+  step s1 (EPwDeliver r T ks (PwOk 0 0)) = Some s -> In k ks -> kget s1 T k = Unlocked ->
+  kget s T k = Locked 0 /\ forall evs' s', run_from s evs' = Some s' -> lamk s' T k = Some 0.
+Proof.
+  intros pre s1 r T ks k s R1 St Hk Eu. unfold step in St. destruct (stepr s1 _) as [s2 | rr] eqn:E; inversion St. subst s2.
+  destruct (pw_deliver_exact _ _ _ _ _ _ E k Hk) as [Tr _]. rewrite Eu in Tr. cbn in Tr. inversion Tr as [Ek].
+  split; auto. intros evs' s' R'. pose proof (full_run _ _ R1) as F1. pose proof (full_stepr _ _ _ F1 E) as F2.
+  eapply run_from_lam; eauto. destruct F2 as [_ [HL _]]. apply (l_locked _ _ (HL T)). auto.
+Qed.
+Print Assumptions C02_fallback_first_decline.
+
 (* ---------------- C03: truthfulness of Commit's answer under faults ---------------- *)
 Theorem C03_truthful : forall evs s T, run evs = Some s -> hasm s T -> classic s T ->
   (F s T FTold = 1 -> exists c, kget s T (prim s T) = Committed c /\
